@@ -129,6 +129,22 @@ def generate(rng, tier, index):
             # wrong state, duplicate name, inapplicable attribute, ...)
             from sim.props import c08
             ver = r.choice([(1, 2), (1, 4), (2, 0)])
+            if r.random() < 0.4:
+                # an object whose declared size / format disagrees with its
+                # (secret) value: rejected while the value is in hand
+                op = gen.gen_register(ctx, ver, a, r.choice(
+                    ['SymmetricKey', 'SymmetricKey', 'SplitKey',
+                     'SecretData']))
+                ctx.objs.pop()
+                op['obj']['value'] = ctx.rbytes(r.choice([16, 24, 32]))
+                if 'len' in op['obj']:
+                    op['obj']['len'] = r.choice([64, 128, 256, 512, 8])
+                if r.random() < 0.3:
+                    # printable secret
+                    op['obj']['value'] = ''.join(
+                        '%02x' % ord(ch) for ch in 'pw' + ctx.rbytes(7))
+                steps.append({'actor': a, 'ver': list(ver), 'items': [op]})
+                continue
             steps.append({'actor': a, 'ver': list(ver),
                           'items': [c08.failing_op(ctx, r, ver, a)]})
         elif x < 0.7:
